@@ -26,6 +26,10 @@ static void add_seed(const char *name, const uint8_t *d, size_t n, cons_f c, int
 static uint8_t ROOTC[1024]; static size_t ROOTL; static SM9_SIGN_MASTER_KEY S9M; static SM9_SIGN_KEY S9K; static SM9_ENC_MASTER_KEY E9M; static SM9_ENC_KEY E9K;
 static uint8_t OUTB[70000];
 
+/* environment cut: the PBKDF2 iteration count of an encrypted key file is attacker-chosen and unbounded by PKCS#5 (cost, not memory
+ * safety): counts above 70000 are clamped so that a mutant with count 2^24 costs the same as one with a wrong password */
+int __real_sm3_pbkdf2(const char *pass, size_t passlen, const uint8_t *salt, size_t saltlen, size_t count, size_t outlen, uint8_t *out);
+int __wrap_sm3_pbkdf2(const char *pass, size_t passlen, const uint8_t *salt, size_t saltlen, size_t count, size_t outlen, uint8_t *out) { return __real_sm3_pbkdf2(pass, passlen, salt, saltlen, count > 70000 ? 70000 : count, outlen, out); }
 /* ---------------- consumers ---------------- */
 static void c_cert(const uint8_t *p, size_t n) { x509_cert_print(NUL, 0, 0, "c", p, n); int v, a1, a2; const uint8_t *sn, *is, *su, *iu, *suu, *ex, *sg; size_t snl, isl, sul, iul, suul, exl, sgl; time_t nb, na; SM2_KEY k;
 	x509_cert_get_details(p, n, &v, &sn, &snl, &a1, &is, &isl, &nb, &na, &su, &sul, &k, &iu, &iul, &suu, &suul, &ex, &exl, &a2, &sg, &sgl); int pl; x509_cert_check(p, n, X509_cert_ca, &pl); x509_cert_check(p, n, X509_cert_server_auth, &pl);
@@ -85,6 +89,11 @@ static void blk_capacity(void) {
 		uint8_t *hb2 = (uint8_t *)malloc(k); memcpy(hb2, b, k); nodes = (uint32_t *)malloc(32 * 4); asn1_object_identifier_from_octets(nodes, &cnt, hb2, k); free(nodes); free(hb2); }
 	for (int cnt = 1; cnt <= 12; cnt++) for (int cap = 1; cap <= 8; cap++) { if (!vh_next()) continue; size_t k = 0; for (int i = 0; i < cnt; i++) { b[k++] = 2; b[k++] = 1; b[k++] = (uint8_t)i; } uint8_t der[100]; size_t dl = der_put_tlv(der, 0x30, b, k); int *nums = (int *)malloc(sizeof(int) * cap); size_t got = 0; uint8_t *hb = (uint8_t *)malloc(dl); memcpy(hb, der, dl); const uint8_t *cp = hb; size_t l = dl; asn1_sequence_of_int_from_der(nums, &got, cap, &cp, &l); free(nums); free(hb); vh_evals++; vh_nontriv++; }
 	for (int tag = 0; tag < 256; tag++) { if (!vh_next()) continue; const char *nm = asn1_tag_name(tag); (void)nm; vh_evals++; vh_nontriv++; }
+	/* certificate lists whose DER total is around / beyond the 2048-byte certificate store (TLS 1.2 / TLCP form and TLS 1.3 form) */
+	{ static const size_t T[] = { 1500, 2040, 2049, 2100, 4096, 8300, 16000 }; extern int tls13_process_certificate_list(const uint8_t *, size_t, uint8_t *, size_t *); static uint8_t rec[17000];
+	  for (int t = 0; t < 7; t++) for (int form = 0; form < 2; form++) { if (!vh_next()) continue; size_t c1 = ROOTL, n = (T[t] + c1 - 1) / c1, k = 12; for (size_t i = 0; i < n && k + 5 + c1 < 16384; i++) { rec[k++] = (uint8_t)(c1 >> 16); rec[k++] = (uint8_t)(c1 >> 8); rec[k++] = (uint8_t)c1; memcpy(rec + k, ROOTC, c1); k += c1; if (form) { rec[k++] = 0; rec[k++] = 0; } }
+		size_t ll = k - 12, hl = k - 9, rl = k - 5; rec[0] = 22; rec[1] = 3; rec[2] = 3; rec[3] = (uint8_t)(rl >> 8); rec[4] = (uint8_t)rl; rec[5] = 11; rec[6] = (uint8_t)(hl >> 16); rec[7] = (uint8_t)(hl >> 8); rec[8] = (uint8_t)hl; rec[9] = (uint8_t)(ll >> 16); rec[10] = (uint8_t)(ll >> 8); rec[11] = (uint8_t)ll;
+		uint8_t *hb = (uint8_t *)malloc(k); memcpy(hb, rec, k); uint8_t *certs = (uint8_t *)malloc(TLS_MAX_CERTIFICATES_SIZE); size_t cl = 0; if (!form) tls_record_get_handshake_certificate(hb, certs, &cl); else tls13_process_certificate_list(hb + 12, k - 12, certs, &cl); free(certs); free(hb); vh_evals++; vh_nontriv++; } }
 	/* cipher-suite lists of 63..66 entries, session ids of 31..34 bytes in ClientHello / ServerHello */
 	for (int ncs = 62; ncs <= 67; ncs++) for (int sid = 30; sid <= 36; sid++) { if (!vh_next()) continue; uint8_t body[400]; size_t k = 0; body[k++] = 1; size_t lenpos = k; k += 3; body[k++] = 3; body[k++] = 3; for (int i = 0; i < 32; i++) body[k++] = (uint8_t)i; body[k++] = (uint8_t)sid; for (int i = 0; i < sid; i++) body[k++] = 0x55; body[k++] = (uint8_t)((2 * ncs) >> 8); body[k++] = (uint8_t)(2 * ncs); for (int i = 0; i < ncs; i++) { body[k++] = 0xe0; body[k++] = 0x13; } body[k++] = 1; body[k++] = 0; size_t hl = k - 4; body[lenpos] = 0; body[lenpos + 1] = (uint8_t)(hl >> 8); body[lenpos + 2] = (uint8_t)hl;
 		uint8_t rec[420] = { 22, 3, 3, (uint8_t)(k >> 8), (uint8_t)k }; memcpy(rec + 5, body, k); c_tlsrec(rec, 5 + k); rec[5] = 2; c_tlsrec(rec, 5 + k); vh_evals++; vh_nontriv++; }
